@@ -67,5 +67,29 @@ def main(libdir, n, basis_json, maxlines, seed):
     json.dump({"points": pts, "lines": out, "nlines": len(trees), "nstrings": len(eqs)}, sys.stdout)
 
 
+def nts_arrays(cases_json):
+    """the real node_to_string on raw node arrays: [{"idx": k|null, "nodes": [[type, left|null, right|null], ...], "labels": [...]}]"""
+    import esr.generation.generator as g
+    out = []
+    for c in json.loads(cases_json):
+        tree = []
+        for ty, lf, rg in c["nodes"]:
+            nd = g.Node(ty)
+            nd.left, nd.right = lf, rg
+            tree.append(nd)
+        sys.setrecursionlimit(200)
+        try:
+            r = g.node_to_string(c["idx"], tree, list(c["labels"]))
+            out.append(["none"] if r is None else ["str", r])
+        except RecursionError:
+            out.append(["loop"])
+        except Exception as e:
+            out.append(["raise", type(e).__name__])
+    json.dump(out, sys.stdout)
+
+
 if __name__ == "__main__":
-    main(sys.argv[1], int(sys.argv[2]), sys.argv[3], int(sys.argv[4]), int(sys.argv[5]))
+    if sys.argv[1] == "nts_arrays":
+        nts_arrays(sys.stdin.read())
+    else:
+        main(sys.argv[1], int(sys.argv[2]), sys.argv[3], int(sys.argv[4]), int(sys.argv[5]))
